@@ -402,6 +402,7 @@ def main():
     replay_dir = os.path.join(WORK, "replay", prop)
     os.makedirs(replay_dir, exist_ok=True)
     MAX_REPLAY = 3
+    attempts = 0
     to_replay = []   # (harness, checks, wanted tests)
     for hn, checks in candidates:
         if byname[hn].get("replay") == "solver-only":
@@ -419,10 +420,12 @@ def main():
             else:
                 inconclusive.append((hn, "counterexample not confirmed by the second SAT back end"))
             continue
-        if len(to_replay) >= MAX_REPLAY:
+        if attempts >= MAX_REPLAY:
             unreplayed.append((hn, "; ".join(c["description"] for c in checks)))
             continue
-        tests = concrete_playback(crate, target, hn, log, timeout_s)
+        attempts += 1
+        # producing the concrete trace is slower than the verdict itself: three times the cap
+        tests = concrete_playback(crate, target, hn, log, 3 * timeout_s)
         wanted = [t for t in tests if any(c["description"].strip('"') in t["check"] or t["check"] in c["description"] for c in checks)]
         if not wanted:
             wanted = tests
